@@ -234,12 +234,46 @@ Deliver2(k1, k2, s, c, ord) ==
   /\ grants' = Prune(grants)
   /\ last' = Act2(k1, k2, s, c, ord) /\ nops' = nops + 1
 
+(* Key collisions.  Some kinds CREATE or UPSERT an object under a key the sender chooses, in a namespace shared by all        *)
+(* principals: a scheduler job id, a factory sub-denom (path-like: factory/<creator>/<sub>), the ERC-20 address a factory    *)
+(* denom is bound to, a light-node client address, a validator's external-chain address, the validator address of a relayer *)
+(* fee record, the base denom of bank metadata (path-like).  DeliverK(k, s, c, n, v) is Deliver(k, s, c, ..) whose key is   *)
+(* variant v of the key of an object the principal n ALREADY owns:                                                           *)
+(*   "eq" exactly equal, "case" letter case changed, "lws" / "tws" leading / trailing blank, "dot" a "./" segment,          *)
+(*   "dotdot" a "x/../" segment (for a sub-denom: "../<n>/<sub>").                                                           *)
+(* As meant, a key that is not n's own key byte for byte names a DIFFERENT object (or is refused by the key grammar); it is  *)
+(* never normalised onto n's object.  Whatever the outcome, only the creator's state is written.  KeyTable says, per keyed   *)
+(* kind, which variants are accepted when the collided object is the creator's own (own) / somebody else's (foreign).        *)
+Variants == {"eq", "case", "lws", "tws", "dot", "dotdot"}
+KR(shape, own, foreign) == [shape |-> shape, own |-> own, foreign |-> foreign]
+KeyTable == [k \in {"ScCreateJob", "TfCreateDenom", "SkSetERC20ToTokenDenom", "PaAddLicenseFor", "VaAddExternalChainInfo",
+                    "TrUpsertRelayerFee", "TfSetDenomMetadata"} |->
+  CASE k = "ScCreateJob"            -> KR("flat", {}, {})                                       \* ids are unique; grammar [a-z0-9_-]
+    [] k = "TfCreateDenom"          -> KR("path", {"case", "dot"}, {"case", "dot"})   \* other sub-denoms of the creator's own namespace; ".." is refused
+    [] k = "SkSetERC20ToTokenDenom" -> KR("flat", {}, {})                                       \* an ERC-20 is bound once, hex is case-insensitive
+    [] k = "PaAddLicenseFor"        -> KR("flat", {}, {})                                       \* the address has an account
+    [] k = "VaAddExternalChainInfo" -> KR("flat", Variants, {"lws", "tws", "dot", "dotdot"})    \* a registered address is taken in every spelling
+    [] k = "TrUpsertRelayerFee"     -> KR("flat", {"eq", "case"}, {})                           \* own record only; bech32 is case-insensitive
+    [] k = "TfSetDenomMetadata"     -> KR("path", {"eq"}, {})]                                  \* admin of exactly that denom
+Keyed == DOMAIN KeyTable
+KeyAccepted(k, c, n, v) == v \in (IF n = c THEN KeyTable[k].own ELSE KeyTable[k].foreign)
+
+DeliverK(k, s, c, n, v) ==
+  LET okk == /\ s = c \/ Granted(grants, c, s)
+             /\ c \in Users /\ KeyAccepted(k, c, n, v) IN
+  /\ k \in Keyed /\ s \in Users /\ c \in Users /\ n \in Users /\ v \in Variants
+  /\ owned' = IF okk THEN [owned EXCEPT ![c][k] = @ + 1] ELSE owned
+  /\ res' = IF okk THEN "ok" ELSE "fail"
+  /\ grants' = Prune(grants)
+  /\ last' = [Act("DeliverK", k, s, c, n) EXCEPT !.k1 = v] /\ nops' = nops + 1
+
 \* kinds that can stand in a two-message transaction (plain user / validator messages)
 Plain == {k \in Kinds : ~KT[k].gov /\ KT[k].routed /\ ~KT[k].never /\ ~KT[k].carrier}
 
 Next == \/ \E pr \in Pairs : Grant(pr[1], pr[2]) \/ GrantExp(pr[1], pr[2]) \/ Revoke(pr[1], pr[2])
         \/ \E k \in Kinds, s \in P, c \in P, n \in P : Deliver(k, s, c, n)
         \/ \E k1 \in Plain, k2 \in Plain, s \in Users, c \in Users, ord \in {1, 2} : Deliver2(k1, k2, s, c, ord)
+        \/ \E k \in Keyed, s \in Users, c \in Users, n \in Users, v \in Variants : DeliverK(k, s, c, n, v)
 
 Spec == Init /\ [][Next]_vars
 
@@ -260,8 +294,9 @@ TableOK == /\ \A i, j \in DOMAIN Rows : Rows[i].kind = Rows[j].kind => i = j
                 /\ (r.auth # "none" => r.gov /\ r.target = "field")
                 /\ (~r.routed => r.never)
            /\ NotMessages \cap TableUrls = {}
+           /\ Keyed \subseteq {k \in Kinds : ~KT[k].gov /\ KT[k].routed /\ ~KT[k].carrier} /\ \A k \in Keyed : KeyTable[k].own \cup KeyTable[k].foreign \subseteq Variants
 
-IsDeliver == last'.act \in {"Deliver", "Deliver2"}
+IsDeliver == last'.act \in {"Deliver", "Deliver2", "DeliverK"}
 D == last'
 \* who stands behind a transaction: its signer, and the creator if it is the signer or fee-granted the signer;
 \* everybody if the governance authority executes it
